@@ -506,7 +506,11 @@ class URL:
             except UnicodeEncodeError:
                 self.host = ud['host']  # already non-ascii text
             else:
-                self.host = self.host.decode("idna")
+                try:
+                    self.host = self.host.decode("idna")
+                except UnicodeError as ue:
+                    raise URLParseError('invalid IDNA host: %r (%r)'
+                                        % (ud['host'], ue))
 
         self.port = ud['port']
         self.path_parts = tuple([unquote(p) if '%' in p else p for p
